@@ -577,6 +577,31 @@ def run(repo: Repo, ctx) -> None:
                     ok = ok and any(norm(x).startswith('self._current = ')
                                     for x in ast.walk(f.node)
                                     if isinstance(x, ast.Assign))
+            elif h is f and any('_savepoints.pop(' in norm(x)
+                                for x in ast.walk(lp)):
+                # erased while scanning: which iterations reach a pop
+                shape = 'erase-while-scanning'
+                idx_test = None
+                top_pops = []
+                for i, st in enumerate(lp.body):
+                    if isinstance(st, ast.If) and norm(st.test) == \
+                            f'{norm(lp.target)}.name == name':
+                        idx_test = i
+                    elif '_savepoints.pop(' in norm(st) and not isinstance(
+                            st, ast.If):
+                        top_pops.append(i)
+                if idx_test is None:
+                    raise AnalysisError(f'C09.R6: {name}: match test not '
+                                        f'found in the scanning loop')
+                if rollback:
+                    ok = bool(top_pops) and all(i > idx_test
+                                                for i in top_pops)
+                else:
+                    # every savepoint from the newest down to and including
+                    # the named one goes: the pop is not conditional on the
+                    # match
+                    ok = bool(top_pops) and all(i < idx_test
+                                                for i in top_pops)
             else:
                 raise AnalysisError(f'C09.R6: {name}: unrecognised erase '
                                     f'shape: cannot decide')
@@ -837,6 +862,7 @@ def run(repo: Repo, ctx) -> None:
 
     _r9(repo, ctx)
     _r10(repo, ctx)
+    root_schema_rule(repo, ctx, 'C09.R11')
 
 
 def _isa(repo: Repo, q: str) -> Set[str]:
@@ -996,3 +1022,61 @@ def _r10(repo: Repo, ctx) -> None:
            'reports no new global schema', us.loc,
            sample='_current._replace(local_user_schema=.., '
                   'global_schema=..) on every path')
+
+
+def root_schema_rule(repo: Repo, ctx, rule: str) -> None:
+    """The root user schema of an open transaction is the one the caller
+    supplies.  A transaction state whose savepoints carry no schema of their
+    own resolves the schema through that root, so the pool may leave the
+    pickle out (send the database name alone) only when the worker is known
+    to hold *this very* pickle: the suppression `user_schema_pickle = None`
+    is taken only on the true edge of `<worker's db>.user_schema_pickle is
+    user_schema_pickle`, or together with the database name when the worker
+    reuses its last state.  Otherwise a worker that has meanwhile been
+    synced to a newer schema (another connection committed DDL) compiles the
+    transaction's statements against that newer schema."""
+    ctx.floor(rule, 2)
+    n = 0
+    for qn, f in sorted(repo.functions.items()):
+        if f.name != 'compile_in_tx' or f.module.name != \
+                'edb.server.compiler_pool.pool':
+            continue
+        g = CFG(f.node)
+        for nd in g.nodes:
+            a = nd.ast
+            if nd.kind != 'stmt' or not isinstance(a, ast.Assign):
+                continue
+            tg = [norm(t) for t in a.targets]
+            if 'user_schema_pickle' not in tg or not (isinstance(
+                    a.value, ast.Constant) and a.value.value is None):
+                continue
+            n += 1
+            ctx.saw(f)
+            if 'dbname' in tg:
+                ok, how = True, 'together with dbname (last state reused)'
+            else:
+                ok = any(t.kind == 'test' and any(
+                    isinstance(c, ast.Compare) and isinstance(
+                        c.ops[0], ast.Is) and {norm(c.left).split('.')[-1],
+                                               norm(c.comparators[0])
+                                               .split('.')[-1]} ==
+                    {'user_schema_pickle'} and norm(c.left) != norm(
+                        c.comparators[0])
+                    for c in ast.walk(t.ast.test if hasattr(t.ast, 'test')
+                                      else t.ast))
+                    and g.edge_dominates(t.id, 'T', nd.id)
+                    for t in g.nodes)
+                how = 'under the identity test of the believed pickle'
+            ctx.ob(rule, f'{f.qualname.split("pool.")[-1]}:'
+                   f'root-schema-left-out@L{a.lineno - f.node.lineno}', ok,
+                   f'{f.qualname} leaves the root user schema out of the '
+                   f'request without having established that the worker '
+                   f'holds this very pickle: the worker then uses whatever '
+                   f'schema version it has for that database, and the '
+                   f'statements of an open transaction (and its ROLLBACK TO '
+                   f'baselines) switch to a schema another connection '
+                   f'committed after the transaction started',
+                   f'{f.module.rel()}:{a.lineno}', sample=how)
+    if n < 2:
+        raise AnalysisError(f'{rule}: suppression of the root schema in '
+                            f'compile_in_tx not found')
